@@ -268,7 +268,9 @@ impl Puback {
 impl Encodable for Puback {
     fn encode<W: io::Write>(&self, writer: &mut W) -> io::Result<()> {
         write_u16(writer, self.pid.value())?;
-        if self.reason_code != PubackReasonCode::Success {
+        if self.reason_code != PubackReasonCode::Success
+            || self.properties != PubackProperties::default()
+        {
             write_u8(writer, self.reason_code as u8)?;
             if self.properties != PubackProperties::default() {
                 self.properties.encode(writer)?;
@@ -422,7 +424,9 @@ impl Pubrec {
 impl Encodable for Pubrec {
     fn encode<W: io::Write>(&self, writer: &mut W) -> io::Result<()> {
         write_u16(writer, self.pid.value())?;
-        if self.reason_code != PubrecReasonCode::Success {
+        if self.reason_code != PubrecReasonCode::Success
+            || self.properties != PubrecProperties::default()
+        {
             write_u8(writer, self.reason_code as u8)?;
             if self.properties != PubrecProperties::default() {
                 self.properties.encode(writer)?;
@@ -576,7 +580,9 @@ impl Pubrel {
 impl Encodable for Pubrel {
     fn encode<W: io::Write>(&self, writer: &mut W) -> io::Result<()> {
         write_u16(writer, self.pid.value())?;
-        if self.reason_code != PubrelReasonCode::Success {
+        if self.reason_code != PubrelReasonCode::Success
+            || self.properties != PubrelProperties::default()
+        {
             write_u8(writer, self.reason_code as u8)?;
             if self.properties != PubrelProperties::default() {
                 self.properties.encode(writer)?;
@@ -707,7 +713,9 @@ impl Pubcomp {
 impl Encodable for Pubcomp {
     fn encode<W: io::Write>(&self, writer: &mut W) -> io::Result<()> {
         write_u16(writer, self.pid.value())?;
-        if self.reason_code != PubcompReasonCode::Success {
+        if self.reason_code != PubcompReasonCode::Success
+            || self.properties != PubcompProperties::default()
+        {
             write_u8(writer, self.reason_code as u8)?;
             if self.properties != PubcompProperties::default() {
                 self.properties.encode(writer)?;
